@@ -21,6 +21,8 @@ PREFIX_LAYOUTS = [
     {"depth": 2, "core": "named_after_tail"},   # pkg p<j>.biz      core biz_core<j>
     {"depth": 2, "core": "embedded_data_tail"},  # pkg p<j>.data     (tail is a prefix of `dataclasses`)
     {"depth": 3, "core": "sibling_prefix"},      # pkg p<j>.api.svc  core p<j>.api.svc_core
+    {"depth": 2, "core": "repeated_component"},  # pkg p<j>.p<j>     (first two components equal; found by X03)
+    {"depth": 2, "core": "core_is_client_tail"},  # pkg p<j>.kern<j>  core kern<j> (the client's dotted name ends with the core's; found by C11 round 2)
 ]
 
 LAYOUTS = [
@@ -47,6 +49,10 @@ def pkg_names(j: int, layout: dict) -> tuple[str, str | None]:
         return f"{top}.data", None
     if c == "sibling_prefix":
         return f"{top}.api.svc", f"{top}.api.svc_core"
+    if c == "repeated_component":
+        return f"{top}.{top}", None
+    if c == "core_is_client_tail":
+        return f"{top}.kern{j}", f"kern{j}"
     if c == "embedded":
         return pkg, None
     if c == "toplevel" or d == 1:
